@@ -32,6 +32,12 @@ def run_mutant(prop, m, tier="quick", run_tests=False):
             return name, "BROKEN-MUTANT (anchor text not found)", ""
         s = s.replace(old, new, 1)
         open(fp, "w").write(s)
+        for path2, old2, new2 in (m[4] if len(m) > 4 else []):  # a mutant may need cooperating edits
+            fp2 = os.path.join(d, path2)
+            s2 = open(fp2).read()
+            if s2.count(old2) < 1:
+                return name, "BROKEN-MUTANT (second anchor text not found)", ""
+            open(fp2, "w").write(s2.replace(old2, new2, 1))
         env = dict(os.environ, VF_REPO=d, VF_REPLAY_DIR=os.path.join(d, "_replays"))
         tests = ""
         if run_tests:
